@@ -7,9 +7,14 @@ from checks import simcommon as sc
 MODULE = "Nice.Props.C02"
 THEOREMS = [f"Nice.Props.C02.{t}" for t in (
     "C02_compact_exact", "C02_scatter_exact", "C02_scatter_compact_roundtrip", "gather_eq", "C02_frames_concat", "C02_demux")] + [
-    "Nice.Props.C03Flow.C03_inbound_consumes_control_traffic", "Nice.Props.C03Recv.demux_same_padding"]
+    "Nice.Props.C03Flow.C03_inbound_consumes_control_traffic", "Nice.Props.C03Recv.demux_same_padding",
+    "Nice.Props.C02Iter.C02_partly_filled_message_counts", "Nice.Props.C02Iter.C02_untouched_message_not_counted",
+    "Nice.Props.C02Iter.C02_full_means_all_counted"]
 TRUSTED = [
     "Lean 4 kernel; axioms propext, Classical.choice, Quot.sound only (audited every run)",
+    "Nice/Gen/Kernels.lean iter_n_valid_messages / iter_is_at_end: REGENERATED on every run from the bodies of "
+    "nice_input_message_iter_get_n_valid_messages / _is_at_end in agent/agent.c (tools/extract.py FIELD_KERNELS: `iter->field` read as a "
+    "parameter; the translator refuses a body that writes through the pointer or uses it otherwise); the C02Iter theorems are about those definitions",
     "Nice/Model/Copy.lean: hand-written models of compact_message / memcpy_buffer_to_input_message and of the >0xF800 ICE-TCP "
     "frame split; tied (a) line by line to the real helpers through kern_drv `copy` ops on exactly-sized heap blocks, (b) by "
     "comparing the pieces a real peer agent receives over ICE-TCP with the model's splitFrames for the same buffer layout",
